@@ -64,9 +64,9 @@ fn main() {
             let id: &'static str = Box::leak(pos.first().cloned().unwrap_or_else(|| usage()).into_boxed_str());
             println!("VERIF_SEED={seed} tier={tier:?} threads={threads} check={id}");
             let ctx = Ctx { id, tier, seed, threads, start: Instant::now(), verif_dir: verif_dir.into() };
-            let rep = match id {
-                "C01" => checks::c01::run(&ctx),
-                _ => {
+            let rep = match checks::run_check(id, &ctx) {
+                Some(r) => r,
+                None => {
                     eprintln!("unknown check {id}");
                     std::process::exit(2)
                 }
@@ -95,10 +95,7 @@ fn main() {
 fn replay(rf: &ReplayFile) -> Vec<(String, String)> {
     match &rf.case {
         Case::World(w) => {
-            let own: &[&str] = match rf.property.as_str() {
-                "C01" => checks::c01::OWN,
-                _ => &[],
-            };
+            let own: &[&str] = checks::own_clauses(rf.property.as_str());
             let r = world::run_world(w);
             r.violations
                 .into_iter()
